@@ -19,6 +19,10 @@
 //                         seeded and unseeded Random objects, geodesics, LAPACK factorizations, splines, roots),
 //   interleaved-noise     one slot of that activity before every single step of S,
 //   twin-interleaved      two separately built instances of S stepping alternately,
+//   cousin-interleaved    S stepping alternately with a "cousin": the same tree (same nq/nu/nb) with other forces,
+//                         constraints, prescribed motion and handlers (always constrained) under another integrator --
+//                         same shape, different content, the worst neighbour for a hidden nu-sized workspace; both
+//                         must reproduce their solo records,
 //   shared-system         two integrators on ONE System object stepping alternately (all run state is in State).
 // A mismatch witness names the first returned step that differs, which components differ there, and (interleaved
 // schedules) which activity ran immediately before that step. The unrelated activities are deterministic functions
@@ -160,6 +164,7 @@ static void checkCase(Ctx& c, long idx, Rng& r) {
         if (n == "after-noise") return rot(1);
         if (n == "twin-interleaved") return rot(2);
         if (n == "shared-system") return rot(3);
+        if (n == "cousin-interleaved") return rot(1) || rot(3);
         return true;
     };
 
@@ -277,6 +282,32 @@ static void checkCase(Ctx& c, long idx, Rng& r) {
         }
         tally(c, ra); tally(c, rb);
         compareTraj(c, "twin-interleaved", *sa, ref, ra.traj, &ba, "first twin"); compareTraj(c, "twin-interleaved", *sb, ref, rb.traj, &bb, "second twin"); c.cover(cell + "twin-interleaved");
+    }
+    // ---- neighbours of the same shape and different content stepping alternately with S: two cousins, one
+    // constrained without prescribed motion (or with handlers), one constrained *and* prescribed, so that whatever S
+    // is, each kind of projection / prescribed-motion bookkeeping has a same-size neighbour of the other kind
+    if (want("cousin-interleaved")) {
+        const int cz[2] = {(idx % 2) ? 1 : 3, 2};
+        auto mkCousin = [&](int k) { std::unique_ptr<Scen> x(new Scen()); x->build(cs.scenSeed, cs.cyc, cs.kn, (sc0->io.kind + 1 + k + (int)(idx % 3)) % IK_Count, cz[k]); return x; };
+        Traj refC[2]; bool haveC[2];
+        for (int k = 0; k < 2; ++k) {
+            c.setPhase("cousin-interleaved: cousin " + std::to_string(k) + " alone " + sc0->descr);
+            std::unique_ptr<Scen> sx = mkCousin(k); Run rx(*sx, sx->s0); rx.runToEnd(); refC[k] = rx.traj; tally(c, rx);
+            haveC[k] = !refC[k].steps.empty(); if (!haveC[k]) c.obs("cousin-interleaved:cousin-returned-no-step");
+        }
+        c.setPhase("cousin-interleaved " + sc0->descr);
+        std::unique_ptr<Scen> sa = buildScen(cs); std::unique_ptr<Scen> sx[2]; std::unique_ptr<Run> rx[2];
+        for (int k = 0; k < 2; ++k) if (haveC[k]) { sx[k] = mkCousin(k); rx[k].reset(new Run(*sx[k], sx[k]->s0)); }
+        Run ra(*sa, sa->s0);
+        std::vector<std::string> ba, bx[2]; bool ma = true, mx[2] = {haveC[0], haveC[1]};
+        while (ma || mx[0] || mx[1]) {
+            for (int k = 0; k < 2; ++k) if (mx[k]) { size_t n0 = rx[k]->traj.steps.size(); mx[k] = rx[k]->step(); if (rx[k]->traj.steps.size() > n0) bx[k].push_back(k == 0 ? "a step of the scenario under test" : "a step of the other cousin"); }
+            if (ma) { size_t n0 = ra.traj.steps.size(); ma = ra.step(); if (ra.traj.steps.size() > n0) ba.push_back("steps of the same-shape cousins"); }
+        }
+        tally(c, ra);
+        compareTraj(c, "cousin-interleaved", *sa, ref, ra.traj, &ba, "scenario under test");
+        for (int k = 0; k < 2; ++k) if (haveC[k]) { tally(c, *rx[k]); compareTraj(c, "cousin-interleaved", *sx[k], refC[k], rx[k]->traj, &bx[k], k == 0 ? "first cousin" : "second cousin (constrained and prescribed)"); }
+        c.cover(cell + "cousin-interleaved"); if (haveC[0] && haveC[1]) c.obs("cousin-interleaved:both-cousins-ran");
     }
     // ---- two integrators on one System object stepping alternately
     if (want("shared-system")) {
